@@ -74,6 +74,18 @@ func ibcPrefixProbe(t *testing.T, out *hx.Out) {
 			must2(err)
 		}
 		key := "probe:ibc-channel-prefix:" + order
+		// the erc20 module's alias look-up (MsgConvertDenom, the precompile's increaseBridgeFee / bridgeCoinAmount) decides the
+		// same question with its own copy of the condition
+		for _, q := range []struct{ target, want string }{{"ibc/1/px", v1}, {"ibc/11/px", v11}, {"px/transfer/channel-1", v1}} {
+			if got := app.Erc20Keeper.ToTargetDenom(ctx, base, base, md.DenomUnits[0].Aliases, fxtypes.ParseFxTarget(q.target)); got == q.want {
+				out.Count("probe:ibc-channel-prefix:erc20-look-up-right")
+			} else {
+				out.Count("probe:ibc-channel-prefix:erc20-look-up-WRONG")
+				if os.Getenv("VERIF_C04_PROBE_STRICT") == "1" {
+					out.Violate("the erc20 module's alias look-up (ToTargetDenom) answers an IBC target with the voucher of ANOTHER channel whose identifier has the target's as a string prefix (aliases " + order + ", target " + q.target + ")")
+				}
+			}
+		}
 		// the holder asks for 6 of the 20 base coins to leave through channel-1
 		got, err := k.BaseCoinToIBCCoin(ctx, sdk.NewCoin(base, si(6)), u, "px/transfer/channel-1")
 		if err != nil {
